@@ -37,4 +37,18 @@ PROPS = {
             "model = code is checked on the generated expressions x inputs only (bounded-exhaustive for depth <= 2, sampled beyond)",
         ],
     },
+    "C04": {
+        "coq_targets": ["theories/RT/ArrayProofs.vo"],
+        "harness": ["c04"],
+        "disagreement_is_violation": True,
+        "axioms": [],
+        "trusted_base": COMMON_TB + [
+            "modelled, not verified: rusty_variant/src/array_value.rs (VArray::new, abs_index, get_element(_mut), get_dimension_bounds, dimensions_to_array_length), fix_length in rusty_basic/src/interpreter/string_utils.rs, record field lookup (UserDefinedTypeValue as an ordered list with case-folded keys)",
+            "program-level routes (DIM, element/field assignment, by-reference parameters, LBOUND/UBOUND built-ins, FixLength emission) are not modelled: they are checked by generated programs against an independent reference in the harness (implementation-side evaluation), not by a theorem",
+        ],
+        "assumptions": [
+            "element count of an array < 2^31 (Rust i32 index arithmetic is exact); allocation of more elements is out of reach",
+            "strings are byte strings (ASCII)",
+        ],
+    },
 }
